@@ -1547,6 +1547,9 @@ pub fn gen(tier: &str, seed: u64) -> Vec<String> {
         lines.push(k_line(&with_k_hints(&c)));
     }
     gen_late(thorough, seed, &mut lines);
+    // the composed kanata-level model (Model/Kanata.lean + KanataDyn + KanataDynTick) against the
+    // real Kanata: whole-grammar and layered configurations extended with dynamic-macro keys
+    lines.extend(crate::kandyn::gen_lines(tier, seed, 600));
     lines
 }
 
